@@ -43,7 +43,10 @@ fn scenarios_for(prop: &str, tier: Tier) -> Vec<Box<dyn Scenario>> {
             ];
             // dropped connection tasks (zombies: the broker notices on its next send to them)
             v.push(Box::new(CallsScenario { minors: [20, 16, 20, 14], depth: tier.pick(9, 14), max_calls: 2, serials: vec![0, 1], crash_points: true }));
+            // the same with an owner below 1.19 (calls are forwarded as CallFunction, not CallFunction2)
+            v.push(Box::new(CallsScenario { minors: [18, 20, 14, 20], depth: tier.pick(8, 12), max_calls: 2, serials: vec![0, 1], crash_points: true }));
             if tier == Tier::Thorough {
+                v.push(Box::new(CallsScenario { minors: [14, 19, 20, 16], depth: 11, max_calls: 2, serials: vec![0, 1], crash_points: true }));
                 v.push(Box::new(CallsScenario { minors: [19, 18, 20, 16], depth: 14, max_calls: 3, serials: vec![0, 1], crash_points: false }));
                 v.push(Box::new(CallsScenario { minors: [15, 20, 19, 18], depth: 14, max_calls: 3, serials: vec![0, 1], crash_points: false }));
             }
@@ -68,10 +71,12 @@ fn scenarios_for(prop: &str, tier: Tier) -> Vec<Box<dyn Scenario>> {
             for bs in 0..bus_states().len() {
                 v.push(Box::new(ListenerCurrentScenario { bus_state: bs, two_listeners: bs % 2 == 1, max_filters_depth: tier.pick(4, 5) }));
             }
-            v.push(Box::new(ListenerNewScenario { filters: vec![0, 1, 7, 9], depth: tier.pick(6, 8) }));
-            v.push(Box::new(ListenerNewScenario { filters: vec![3, 4, 10], depth: tier.pick(6, 8) }));
+            v.push(Box::new(ListenerNewScenario { filters: vec![0, 1, 7, 9], depth: tier.pick(6, 8), listener_crash: false }));
+            v.push(Box::new(ListenerNewScenario { filters: vec![3, 4, 10], depth: tier.pick(6, 8), listener_crash: false }));
+            // a listener connection whose task was dropped is only noticed in the middle of a fan-out
+            v.push(Box::new(ListenerNewScenario { filters: vec![0, 7], depth: tier.pick(6, 8), listener_crash: true }));
             if tier == Tier::Thorough {
-                v.push(Box::new(ListenerNewScenario { filters: vec![2, 5, 6, 11], depth: 8 }));
+                v.push(Box::new(ListenerNewScenario { filters: vec![2, 5, 6, 11], depth: 8, listener_crash: false }));
             }
             v
         }
@@ -95,9 +100,12 @@ fn scenarios_for(prop: &str, tier: Tier) -> Vec<Box<dyn Scenario>> {
         }
         "C11" => {
             let mut v: Vec<Box<dyn Scenario>> = vec![
-                Box::new(AbuseScenario { minors: [20, 20, 20, 20], depth: tier.pick(2, 3), core_only: true }),
                 Box::new(AbuseScenario { minors: [14, 17, 20, 20], depth: tier.pick(1, 2), core_only: false }),
                 Box::new(AbuseScenario { minors: [20, 16, 14, 14], depth: tier.pick(1, 2), core_only: false }),
+                // last, so that it can use whatever the two above leave of the budget (the time
+                // slices are cumulative): two abuser messages in a row, each followed by the check
+                // that the victims and the probe are still served
+                Box::new(AbuseScenario { minors: [20, 20, 20, 20], depth: tier.pick(2, 3), core_only: true }),
             ];
             if tier == Tier::Thorough {
                 for x in [15, 16, 17, 18, 19] {
